@@ -589,6 +589,25 @@ func (s *Slicer) objectCall(c ssa.CallInstruction, obj ssa.Value, depth int) {
 			s.visit(a, depth)
 		}
 	}
+	// the other objects of the call carry state set by other calls (a hash that was
+	// fed before its Sum filled obj)
+	if fn := c.Parent(); fn != nil {
+		ix := s.index(fn)
+		for _, a0 := range CallArgs(c) {
+			a := StripIface(a0)
+			if a0 == obj || !mutableObject(a) {
+				continue
+			}
+			for _, oc := range ix.argUsers[a] {
+				if oc == c {
+					continue
+				}
+				for _, b := range CallArgs(oc) {
+					s.visit(b, depth)
+				}
+			}
+		}
+	}
 	if c.Common().IsInvoke() {
 		// nothing more
 	} else if !IsBuiltin(c) {
@@ -838,6 +857,9 @@ func (s *Slicer) readsIntoSlice(c ssa.CallInstruction) bool {
 	if cc := c.Common(); cc.IsInvoke() {
 		switch cc.Method.Name() {
 		case "Read", "ReadAt", "PutUint16", "PutUint32", "PutUint64":
+			return true
+		case "Sum", "AppendUint16", "AppendUint32", "AppendUint64":
+			// append-style: writes into the spare capacity of the slice it is given (h.Sum(buf[:0]))
 			return true
 		}
 		return false
